@@ -4,13 +4,16 @@ from .. import gen
 from ..gen import schema_lines, NOCASE, COMMENTS, IGNORE_UNKNOWN
 from .C01 import hand_schemas
 
-THEOREMS = ["C15_step_other", "C15_step_s0_off", "C15_step_s0_on", "C15_insert", "C15_ws", "C15_line_comment_token", "C15_annotation_attach"]
+THEOREMS = ["C15_step_other", "C15_step_s0_off", "C15_step_s0_on", "C15_insert", "C15_ws", "C15_line_comment_token", "C15_annotation_attach", "C15_transparent_annotations_on"]
 PARTIAL = ("Proved: a comment token is the identity on the whole machine in every state but 0 (C15_step_other), and in state 0 changes only the "
-           "pending-annotation slot (C15_step_s0_on) or nothing (annotations off, C15_step_s0_off); hence with annotation support off inserting a "
-           "comment token anywhere in any token list leaves the final machine unchanged (C15_insert, unbounded); white space only moves the line "
-           "counter (C15_ws); '# text' scans to one trimmed comment token (C15_line_comment_token); a pending comment becomes the annotation of the "
-           "option whose value is stored next (C15_annotation_attach). Not proved: value-transparency with annotation support ON (needs a simulation "
-           "relation that ignores annotations) and the print/re-parse read-back; both are checked on the implementation by the oracle.")
+           "pending-annotation slot (C15_step_s0_on) or nothing (annotations off, C15_step_s0_off); with annotation support off inserting a comment "
+           "token anywhere in any token list leaves the final machine unchanged (C15_insert, unbounded); with annotation support ON inserting a comment "
+           "token anywhere changes at most positions and annotations - acceptance, every value at every depth, callbacks and diagnostic classes are the "
+           "same (C15_transparent_annotations_on, from the erasure theorem; side condition: the insertion point is not the item boundary right after a "
+           "DEPRECATED option, where the comment token triggers that option's deprecation diagnostic one token early - the code does that too); white "
+           "space only moves the line counter (C15_ws); '# text' scans to one trimmed comment token (C15_line_comment_token); a pending comment becomes "
+           "the annotation of the option whose value is stored next (C15_annotation_attach). Not proved: the print / re-parse read-back of annotations; "
+           "checked on the implementation by the oracle.")
 VARIANT = "asan"
 RULE = ("accepted and rejected (mutated) texts as token lists; a comment of every form (#, //, /* */ single/multi-line/empty/"
         "marker-only) or extra white space inserted at one token boundary (inside lists, after '=', between name/title and '{', "
